@@ -2076,4 +2076,246 @@ theorem doubleRemLarge_spec (W b shift : Nat) (hW : 1 ≤ W) (ws : List Nat) (h 
       rw [← d1, two_mul_W]; ring
     rw [this, Nat.mul_mod, Nat.mod_mod, ← Nat.mul_mod]
 
+/-- from the contract of `div_rem_unshifted_in_place` to quotient and (shifted) remainder -/
+theorem unshifted_to_divmod (W shift n m a b qTop : Nat) (out : List Nat) (hb : 0 < b) (hnm : n ≤ m)
+    (o1 : out.length = m) (o4 : val W (out.take n) < b * 2 ^ shift)
+    (o5 : (val W (out.drop n) + qTop * 2 ^ (W * (m - n))) * (b * 2 ^ shift) + val W (out.take n)
+      = a * 2 ^ shift) :
+    val W (out.drop n ++ [qTop]) = a / b ∧ val W (out.take n) = (a % b) * 2 ^ shift := by
+  have hdl : (out.drop n).length = m - n := by simp only [List.length_drop]; omega
+  have hq : val W (out.drop n ++ [qTop]) = val W (out.drop n) + qTop * 2 ^ (W * (m - n)) := by
+    rw [val_append_one, hdl]; ring
+  rw [hq]
+  have ⟨u1, u2⟩ := unshift _ _ _ _ _ o5 o4
+  have hu : a / b = val W (out.drop n) + qTop * 2 ^ (W * (m - n)) ∧ a % b = val W (out.take n) / 2 ^ shift :=
+    (Nat.div_mod_unique hb).mpr ⟨by rw [← u1]; ring, u2⟩
+  refine ⟨hu.1.symm, ?_⟩
+  rw [hu.2]
+  generalize val W (out.drop n) + qTop * 2 ^ (W * (m - n)) = Qt at *
+  generalize val W (out.take n) = R' at *
+  have h7 : (Qt * b + R' / 2 ^ shift) * 2 ^ shift = a * 2 ^ shift := by rw [u1]
+  generalize R' / 2 ^ shift = t at *
+  linarith [h7, o5]
+
+/-- a normalised `n`-word divisor exceeds every shorter dividend -/
+theorem short_lt_large (W b shift : Nat) (nd ws : List Nat) (hW : 1 ≤ W) (hs : shift + 1 ≤ W)
+    (hv : val W nd = b * 2 ^ shift) (hnorm : 2 ^ (W * nd.length) ≤ 2 * val W nd)
+    (hw : IsWords W ws) (hl : ws.length < nd.length) : val W ws < b := by
+  have h1 := val_lt W ws hw
+  have h2 : 2 ^ (W * ws.length) ≤ 2 ^ (W * (nd.length - 1)) :=
+    Nat.pow_le_pow_right (by omega) (Nat.mul_le_mul_left _ (by omega))
+  have h3 : 2 ^ (W * nd.length) = 2 ^ (W * (nd.length - 1)) * 2 ^ W := by
+    rw [← Nat.pow_add]; congr 1
+    have : nd.length = nd.length - 1 + 1 := by omega
+    conv => lhs; rw [this]
+    ring
+  have h4 := pow_two_mul_half W hW
+  have h5 := pow_shift_le_half W shift hs
+  by_contra hcon
+  have hle : b ≤ 2 ^ (W * (nd.length - 1)) - 1 := by omega
+  have hpos := Nat.two_pow_pos (W * (nd.length - 1))
+  have h6 : b * 2 ^ shift ≤ (2 ^ (W * (nd.length - 1)) - 1) * 2 ^ (W - 1) :=
+    Nat.mul_le_mul hle h5
+  rw [hv, h3, h4] at hnorm
+  have h7 : (2 ^ (W * (nd.length - 1)) - 1) * 2 ^ (W - 1) + 2 ^ (W - 1)
+      = 2 ^ (W * (nd.length - 1)) * 2 ^ (W - 1) := by
+    have : 2 ^ (W * (nd.length - 1)) - 1 + 1 = 2 ^ (W * (nd.length - 1)) := by omega
+    generalize 2 ^ (W * (nd.length - 1)) - 1 = M at *
+    rw [← this]; ring
+  have h8 := Nat.two_pow_pos (W - 1)
+  nlinarith
+
+/-- `DivRem<&ConstDivisor>`: the prepared divisor gives exactly `(a / b, a % b)` -/
+theorem divRemConst_spec (W : Nat) (hW : 1 ≤ W) (a : TRepr) (b : Nat) (c : ConstDiv)
+    (ha : a.Canon W) (hv : c.Valid W b) :
+    ∃ q r, divRemConst W a c = .ok (q, r) ∧ q.value W = a.value W / b ∧ r.value W = a.value W % b ∧
+      q.Canon W ∧ r.Canon W := by
+  cases c with
+  | single d shift =>
+    obtain ⟨h1, h2, h3, h4, h5, h6⟩ := hv
+    subst h4
+    have hbW : b < 2 ^ (2 * W) := Nat.lt_of_lt_of_le h2 (Nat.pow_le_pow_right (by omega) (by omega))
+    cases a with
+    | small dw =>
+      obtain ⟨q, r, e, hq, hr⟩ := divRemSmallSingle_spec W dw b shift ha h1 h3 h5 h6
+      have ⟨d1, d2⟩ := div_mod_of_eq h1 hq hr
+      refine ⟨.small q, .small r, ?_, d1.symm, d2.symm, ?_, Nat.lt_trans hr hbW⟩
+      · simp only [divRemConst, e, bind, Except.bind, pure, Except.pure]
+      · exact small_canon_of_le ha (by rw [← d1]; exact Nat.div_le_self _ _)
+    | large ws =>
+      obtain ⟨qs, r, e, hq, hr, _, hw⟩ :=
+        fastDivByWordInPlace_spec W b shift ws ha.large_words h1 (by omega) (Nat.le_of_lt h6)
+      have ⟨d1, d2⟩ := div_mod_of_eq h1 hq hr
+      refine ⟨fromBuffer W qs, .small r, ?_, by rw [fromBuffer_value]; exact d1.symm, d2.symm,
+        fromBuffer_canon W qs hw, Nat.lt_trans hr hbW⟩
+      simp only [divRemConst, e, bind, Except.bind, pure, Except.pure]
+  | double d shift =>
+    obtain ⟨h1, h2, h3, h4, h5, h6⟩ := hv
+    subst h4
+    have hbpos : 0 < b := Nat.lt_of_lt_of_le (Nat.two_pow_pos W) h1
+    cases a with
+    | small dw =>
+      obtain ⟨q, r, e, hq, hr⟩ := divRemSmallDouble_spec W dw b shift ha hbpos h3 h5
+      have ⟨d1, d2⟩ := div_mod_of_eq hbpos hq hr
+      refine ⟨.small q, .small r, ?_, d1.symm, d2.symm, ?_, Nat.lt_trans hr h2⟩
+      · simp only [divRemConst, e, bind, Except.bind, pure, Except.pure]
+      · exact small_canon_of_le ha (by rw [← d1]; exact Nat.div_le_self _ _)
+    | large ws =>
+      obtain ⟨qs, r, e, hq, hr, _, hw⟩ :=
+        fastDivByDwordInPlace_spec W b shift ws ha.large_words (by have := ha.large_len; omega)
+          hbpos h3 h5 (Nat.le_of_lt h6)
+      have ⟨d1, d2⟩ := div_mod_of_eq hbpos hq hr
+      refine ⟨fromBuffer W qs, .small r, ?_, by rw [fromBuffer_value]; exact d1.symm, d2.symm,
+        fromBuffer_canon W qs hw, Nat.lt_trans hr h2⟩
+      simp only [divRemConst, e, bind, Except.bind, pure, Except.pure]
+  | large nd shift dtop =>
+    obtain ⟨h1, h2, h3, h4, h5, h6, h7⟩ := hv
+    subst h6
+    have hbpos : 0 < b := Nat.lt_of_lt_of_le (Nat.two_pow_pos (2 * W)) h7
+    cases a with
+    | small dw =>
+      have hx : dw < b := Nat.lt_of_lt_of_le ha h7
+      exact ⟨.small 0, .small dw, rfl, by simp [Nat.div_eq_of_lt hx], by simp [Nat.mod_eq_of_lt hx],
+        Nat.two_pow_pos _, ha⟩
+    | large ws =>
+      by_cases hl : ws.length < nd.length
+      · have hx := short_lt_large W b shift nd ws hW h3 h4 h5 ha.large_words hl
+        refine ⟨.small 0, fromBuffer W ws, by simp only [divRemConst, hl, if_true], ?_, ?_,
+          Nat.two_pow_pos _, fromBuffer_canon W ws ha.large_words⟩
+        · simp [Nat.div_eq_of_lt hx]
+        · simp [fromBuffer_value, Nat.mod_eq_of_lt hx]
+      · obtain ⟨out, qTop, e, o1, o2, o3, o4, o5⟩ :=
+          divRemUnshiftedInPlace_spec W hW ws nd shift (by omega) (by omega) ha.large_words h2 h3 h5
+        rw [h4] at o4 o5
+        have ⟨m1, m2⟩ := unshifted_to_divmod W shift nd.length ws.length (val W ws) b qTop out hbpos
+          (by omega) o1 o4 o5
+        obtain ⟨r', e2, r1, _, r3⟩ := shrRemainder_spec W shift _ (by omega) (out.take nd.length)
+          (o2.take _) m2
+        have hqw : IsWords W (out.drop nd.length ++ [qTop]) :=
+          IsWords.append (o2.drop _) (IsWords.cons o3 (IsWords.nil W))
+        refine ⟨fromBuffer W (out.drop nd.length ++ [qTop]), fromBuffer W r', ?_, ?_, ?_,
+          fromBuffer_canon W _ hqw, fromBuffer_canon W _ r3⟩
+        · simp only [divRemConst, hl, if_false, e, bind, Except.bind, e2, pure, Except.pure]
+        · rw [fromBuffer_value, m1]; rfl
+        · rw [fromBuffer_value, r1]; rfl
+
+/-- `Div<&ConstDivisor>` -/
+theorem divConst_spec (W : Nat) (hW : 1 ≤ W) (a : TRepr) (b : Nat) (c : ConstDiv)
+    (ha : a.Canon W) (hv : c.Valid W b) :
+    ∃ q, divConst W a c = .ok q ∧ q.value W = a.value W / b ∧ q.Canon W := by
+  cases c with
+  | single d shift =>
+    obtain ⟨h1, h2, h3, h4, h5, h6⟩ := hv
+    subst h4
+    cases a with
+    | small dw =>
+      obtain ⟨q, r, e, hq, hr⟩ := divRemSmallSingle_spec W dw b shift ha h1 h3 h5 h6
+      have ⟨d1, d2⟩ := div_mod_of_eq h1 hq hr
+      refine ⟨.small q, ?_, d1.symm, ?_⟩
+      · simp only [divConst, e, bind, Except.bind, pure, Except.pure]
+      · exact small_canon_of_le ha (by rw [← d1]; exact Nat.div_le_self _ _)
+    | large ws =>
+      obtain ⟨qs, r, e, hq, hr, _, hw⟩ :=
+        fastDivByWordInPlace_spec W b shift ws ha.large_words h1 (by omega) (Nat.le_of_lt h6)
+      have ⟨d1, d2⟩ := div_mod_of_eq h1 hq hr
+      refine ⟨fromBuffer W qs, ?_, by rw [fromBuffer_value]; exact d1.symm, fromBuffer_canon W qs hw⟩
+      simp only [divConst, e, bind, Except.bind, pure, Except.pure]
+  | double d shift =>
+    obtain ⟨h1, h2, h3, h4, h5, h6⟩ := hv
+    subst h4
+    have hbpos : 0 < b := Nat.lt_of_lt_of_le (Nat.two_pow_pos W) h1
+    cases a with
+    | small dw =>
+      obtain ⟨q, r, e, hq, hr⟩ := divRemSmallDouble_spec W dw b shift ha hbpos h3 h5
+      have ⟨d1, d2⟩ := div_mod_of_eq hbpos hq hr
+      refine ⟨.small q, ?_, d1.symm, ?_⟩
+      · simp only [divConst, e, bind, Except.bind, pure, Except.pure]
+      · exact small_canon_of_le ha (by rw [← d1]; exact Nat.div_le_self _ _)
+    | large ws =>
+      obtain ⟨qs, r, e, hq, hr, _, hw⟩ :=
+        fastDivByDwordInPlace_spec W b shift ws ha.large_words (by have := ha.large_len; omega)
+          hbpos h3 h5 (Nat.le_of_lt h6)
+      have ⟨d1, d2⟩ := div_mod_of_eq hbpos hq hr
+      refine ⟨fromBuffer W qs, ?_, by rw [fromBuffer_value]; exact d1.symm, fromBuffer_canon W qs hw⟩
+      simp only [divConst, e, bind, Except.bind, pure, Except.pure]
+  | large nd shift dtop =>
+    obtain ⟨h1, h2, h3, h4, h5, h6, h7⟩ := hv
+    subst h6
+    have hbpos : 0 < b := Nat.lt_of_lt_of_le (Nat.two_pow_pos (2 * W)) h7
+    cases a with
+    | small dw =>
+      have hx : dw < b := Nat.lt_of_lt_of_le ha h7
+      exact ⟨.small 0, rfl, by simp [Nat.div_eq_of_lt hx], Nat.two_pow_pos _⟩
+    | large ws =>
+      by_cases hl : ws.length < nd.length
+      · have hx := short_lt_large W b shift nd ws hW h3 h4 h5 ha.large_words hl
+        exact ⟨.small 0, by simp only [divConst, hl, if_true], by simp [Nat.div_eq_of_lt hx],
+          Nat.two_pow_pos _⟩
+      · obtain ⟨out, qTop, e, o1, o2, o3, o4, o5⟩ :=
+          divRemUnshiftedInPlace_spec W hW ws nd shift (by omega) (by omega) ha.large_words h2 h3 h5
+        rw [h4] at o4 o5
+        have ⟨m1, _⟩ := unshifted_to_divmod W shift nd.length ws.length (val W ws) b qTop out hbpos
+          (by omega) o1 o4 o5
+        have hqw : IsWords W (out.drop nd.length ++ [qTop]) :=
+          IsWords.append (o2.drop _) (IsWords.cons o3 (IsWords.nil W))
+        refine ⟨fromBuffer W (out.drop nd.length ++ [qTop]), ?_, ?_, fromBuffer_canon W _ hqw⟩
+        · simp only [divConst, hl, if_false, e, bind, Except.bind, pure, Except.pure]
+        · rw [fromBuffer_value, m1]; rfl
+
+/-- `Rem<&ConstDivisor>` (on the tree with /repo commit 2941615) -/
+theorem remConst_spec (W : Nat) (hW : 1 ≤ W) (a : TRepr) (b : Nat) (c : ConstDiv)
+    (ha : a.Canon W) (hv : c.Valid W b) :
+    ∃ r, remConst W a c = .ok r ∧ r.value W = a.value W % b ∧ r.Canon W := by
+  cases c with
+  | single d shift =>
+    obtain ⟨h1, h2, h3, h4, h5, h6⟩ := hv
+    subst h4
+    have hbW : b < 2 ^ (2 * W) := Nat.lt_of_lt_of_le h2 (Nat.pow_le_pow_right (by omega) (by omega))
+    cases a with
+    | small dw =>
+      have e := singleRemDword_spec W dw b shift hW ha h1 h3 h5 h6
+      refine ⟨.small (dw % b), ?_, rfl, Nat.lt_trans (Nat.mod_lt _ h1) hbW⟩
+      simp only [remConst, e, bind, Except.bind, pure, Except.pure, shifted_mod]
+    | large ws =>
+      have e := singleRemLarge_spec W b shift hW ws ha.large_words ha.large_ne_nil h1 h3 h5 h6
+      refine ⟨.small (val W ws % b), ?_, rfl, Nat.lt_trans (Nat.mod_lt _ h1) hbW⟩
+      simp only [remConst, e, bind, Except.bind, pure, Except.pure, shifted_mod]
+  | double d shift =>
+    obtain ⟨h1, h2, h3, h4, h5, h6⟩ := hv
+    subst h4
+    have hbpos : 0 < b := Nat.lt_of_lt_of_le (Nat.two_pow_pos W) h1
+    cases a with
+    | small dw =>
+      have e := doubleRemDword_spec W dw b shift hW ha hbpos h3 h5
+      refine ⟨.small (dw % b), ?_, rfl, Nat.lt_trans (Nat.mod_lt _ hbpos) h2⟩
+      simp only [remConst, e, bind, Except.bind, pure, Except.pure, shifted_mod]
+    | large ws =>
+      have e := doubleRemLarge_spec W b shift hW ws ha.large_words (by have := ha.large_len; omega)
+        hbpos h3 h5 h6
+      refine ⟨.small (val W ws % b), ?_, rfl, Nat.lt_trans (Nat.mod_lt _ hbpos) h2⟩
+      simp only [remConst, e, bind, Except.bind, pure, Except.pure, shifted_mod]
+  | large nd shift dtop =>
+    obtain ⟨h1, h2, h3, h4, h5, h6, h7⟩ := hv
+    subst h6
+    have hbpos : 0 < b := Nat.lt_of_lt_of_le (Nat.two_pow_pos (2 * W)) h7
+    cases a with
+    | small dw =>
+      have hx : dw < b := Nat.lt_of_lt_of_le ha h7
+      exact ⟨.small dw, rfl, by simp [Nat.mod_eq_of_lt hx], ha⟩
+    | large ws =>
+      by_cases hl : ws.length < nd.length
+      · have hx := short_lt_large W b shift nd ws hW h3 h4 h5 ha.large_words hl
+        exact ⟨fromBuffer W ws, by simp only [remConst, hl, if_true],
+          by simp [fromBuffer_value, Nat.mod_eq_of_lt hx], fromBuffer_canon W ws ha.large_words⟩
+      · obtain ⟨out, qTop, e, o1, o2, o3, o4, o5⟩ :=
+          divRemUnshiftedInPlace_spec W hW ws nd shift (by omega) (by omega) ha.large_words h2 h3 h5
+        rw [h4] at o4 o5
+        have ⟨_, m2⟩ := unshifted_to_divmod W shift nd.length ws.length (val W ws) b qTop out hbpos
+          (by omega) o1 o4 o5
+        obtain ⟨r', e2, r1, _, r3⟩ := shrRemainder_spec W shift _ (by omega) (out.take nd.length)
+          (o2.take _) m2
+        refine ⟨fromBuffer W r', ?_, ?_, fromBuffer_canon W _ r3⟩
+        · simp only [remConst, hl, if_false, e, bind, Except.bind, e2, pure, Except.pure]
+        · rw [fromBuffer_value, r1]; rfl
+
 end Dashu.Model.Div
